@@ -29,7 +29,8 @@ except common.BuildError as e:
 FAMILIES = ["uniform", "clustered", "coplanar", "cospherical", "lattice", "perturbed-lattice", "wall"]
 shards = 16 if quick else 32
 grids = 4 if quick else 150            # per shard: 64 grids quick, 4800 + 192 (ASan) + pinned thorough
-slowcap = 400 if quick else 1000       # coplanar / cospherical: the new construction is O(n^2) there
+slowcap = 400 if quick else 1000       # every family but uniform / perturbed-lattice: the new construction is O(n^2) there
+wallcap = 150 if quick else 300        # wall family: genuine hangs are frequent and each costs a full (quadratic) watchdog
 env = {"OMP_NUM_THREADS": "4"}         # worksize 1..4 is chosen per grid by the harness
 timeout = 3600 if quick else 6 * 3600  # watchdogs proper are CPU-time limits per construction inside the harness
 
@@ -57,7 +58,7 @@ def run_pinned(k):
 
 
 def run_main():
-    return hcheck.run_shards(chk, exe, ["--grids", str(grids), "--stride", str(shards), "--slowcap", str(slowcap)],
+    return hcheck.run_shards(chk, exe, ["--grids", str(grids), "--stride", str(shards), "--slowcap", str(slowcap), "--wallcap", str(wallcap)],
                              shards, timeout, env=env)
 
 
@@ -69,7 +70,7 @@ def run_asan():
     chk2_seed = chk.seed
     chk.seed = chk2_seed + 7777  # different cases than the main pass
     try:
-        return hcheck.run_shards(chk, exe_asan, ["--grids", "12", "--stride", "16", "--slowcap", "300", "--cpufactor", "6"],
+        return hcheck.run_shards(chk, exe_asan, ["--grids", "12", "--stride", "16", "--slowcap", "300", "--wallcap", "100", "--cpufactor", "6"],
                                  16, timeout, env=e)
     finally:
         chk.seed = chk2_seed
@@ -100,7 +101,7 @@ chk.assumptions += [
     "16[q(1+h/d)+eps h (h/d)^2] for needle-shaped Delaunay tetrahedra of real generators (never for walls)",
     "the old construction's documented vertex tolerance OLDVORONOI_TOLERANCE x |box sides|^2 is granted in the local face clauses only",
     "exactly degenerate lattices are only required of the new (incremental) construction, as the property states",
-    "coplanar/cospherical families are capped at %d generators (the new construction needs O(n^2) time there)" % slowcap,
+    "sets of 1000..2000 generators are uniform or perturbed lattices; the other families are capped at %d (wall: %d) generators because the new construction needs O(n^2) time there; the per-construction CPU watchdog is >= 8x (linear) / 15x (quadratic) the measured normal cost" % (slowcap, wallcap),
 ]
 need = {"grids_threaded": stats.get("grids_threaded"), "grids_serial": stats.get("grids_serial"),
         "grid_pairs_compared": stats.get("grid_pairs_compared"), "grids_n_2_to_12": stats.get("grids_n_2_to_12"),
